@@ -73,14 +73,14 @@ NEEDLES = [   # aspect ratio 1e4 at unit 0.01: sizes 0.01 .. 100
 ]
 
 
-def one(rid, fname, call, proxy, ca, cb, smooth):
+def one(rid, fname, call, proxy, ca, cb, smooth, flat=False):
     if _MARK:
         try:
             with open(_MARK, "w") as fh:     # which call is in flight: read by the parent process when this process stops answering
                 fh.write(json.dumps({"rid": rid, "fn": fname, "A": type(ca).__name__, "B": type(cb).__name__ if cb is not None else "same object"}))
         except OSError:
             pass
-    rec = {"id": rid, "kind": "term", "fn": fname, "exc": "none", "finite": True, "supportCalls": 0, "smooth": bool(smooth), "simplexRows": 4}
+    rec = {"id": rid, "kind": "term", "fn": fname, "exc": "none", "finite": True, "supportCalls": 0, "smooth": bool(smooth), "simplexRows": 4, "flatPair": bool(flat)}
     NW.install_observers()
     NW._OBS["rows"] = 4
     if proxy:
@@ -106,6 +106,21 @@ def one(rid, fname, call, proxy, ca, cb, smooth):
 
 
 _MARK = None
+
+
+def lattice_lift(lift):
+    """the lift keeps lattice coordinates exact (identity / cube rotation / integer translation at scale 1): no rounding enters the scene"""
+    return bool(lift[0] == 1.0 and np.array_equal(np.asarray(lift[1]), np.round(np.asarray(lift[1]))) and np.array_equal(np.asarray(lift[2]), np.round(np.asarray(lift[2]))))
+
+
+def is_flat(spec):
+    """zero-volume collider: disk, ellipse, or a vertex hull whose points span less than three dimensions (input description)"""
+    if spec["kind"] in ("disk", "ellipse"):
+        return True
+    if spec["kind"] == "hull":
+        V = np.array(spec["V"], dtype=float)
+        return int(np.linalg.matrix_rank(V - V[0])) < 3
+    return False
 
 
 def gen_isolated(tier, seed, res):
@@ -175,7 +190,7 @@ def gen(tier, seed):
             cb = None if same else B.build(lift, clsB)
             n += 1
             rid = f"t{n}"
-            recs.append(one(rid, fname, call, proxy, ca, cb, smooth))
+            recs.append(one(rid, fname, call, proxy, ca, cb, smooth, flat=is_flat(A.spec) and is_flat(B.spec) and not lattice_lift(lift)))
             meta[rid] = {"A": A.describe(), "B": "same object" if same else B.describe(), "clsA": clsA, "clsB": clsB, "fn": fname,
                          "lift": [lift[0], lift[1].tolist(), lift[2].tolist()]}
     for A, B in NW.gen_scenes(rng, 260 if tier == "quick" else 5000):
@@ -218,6 +233,12 @@ def gen(tier, seed):
             rid = f"t{n}"
             recs.append(one(rid, fname, call, proxy, ca, cb, True))
             meta[rid] = {"A": sa, "B": sb, "fn": fname, "needle": True, "off": off.tolist()}
+    # pinned input of the known finding mpr:flat-pair-contact-position (a square and a segment in one plane, small and far from the origin)
+    A = NW.Body({"kind": "hull", "V": [[-2, -2, 0], [2, -2, 0], [2, 2, 0], [-2, 2, 0]]}, [[0, 1, 0], [-1, 0, 0], [0, 0, 1]], [0, 0, 1], 0, "ConvexHullVertices")
+    B = NW.Body({"kind": "hull", "V": [[0, 0, 0], [4, 0, 0]]}, [[0, 1, 0], [1, 0, 0], [0, 0, -1]], [0, 0, 1], 0, "ConvexHullVertices")
+    drive(A, B, (0.014131115886924575, np.array([[0.5634382377636153, 0.5882010258782685, 0.5801352474911209], [0.7417982663790329, -0.051062169302834914, -0.6686762945275914],
+                                                 [-0.36369311819567485, 0.807101113877215, -0.4650968799672449]]), np.array([-21.799142742797088, -3.884002873369261, -21.99042959634474])),
+          names=("mpr_penetration",))
     # pinned input of the repaired capacity defect (former finding epa:incomplete-gjk-simplex of C19): the same cube hull passed twice
     A = NW.Body({"kind": "hull", "V": S.HULLS["cube"]}, [[0, 1, 0], [0, 0, 1], [1, 0, 0]], [-2, 3, 2], 0, "ConvexHullVertices")
     drive(A, A, NW.IDENT, same=True, names=("epa",))
@@ -252,6 +273,9 @@ def run(tier, seed):
         if "ZONE_IncompleteSimplex" in clauses:       # named pattern of the judge spec (DistanceJudge!TermFailing)
             clauses = clauses - {"ZONE_IncompleteSimplex"}
             key = "epa:incomplete-gjk-simplex"
+        elif "ZONE_FlatPairMpr" in clauses:
+            clauses = clauses - {"ZONE_FlatPairMpr"}
+            key = "mpr:flat-pair-contact-position"
         else:
             key = f"{m['fn']}:{r['exc']}:{'+'.join(sorted(clauses))}:{chash(m)}"
         res.violation(key, "+".join(sorted(clauses)), f"{m['fn']} exc={r['exc']} finite={r['finite']} calls={r['supportCalls']} scene={str(m)[:400]}",
